@@ -164,3 +164,44 @@ T('f_c13_file_obj_alias', ['C13'],
   (ST, '    resp.response = file_wrapper(file_obj)\n', '    served_file = file_obj\n    resp.response = file_wrapper(served_file)\n'))
 B('f_c13_other_response_gets_file', ['C13'], 'R13.c',
   (ST, '    resp.response = file_wrapper(file_obj)\n', "    side = response_type('')\n    side.response = file_wrapper(file_obj)\n"))
+
+# ---- C12 / R12.a: the generated code, with the text assembled in other (equivalent) ways ------------------------------
+_RET = "    return ''.join([def_str, body_str, htb_str + return_str])\n"
+T('f_c12_chain_lines_appended', ['C12'],
+  (S, _RET, "    lines = [def_str]\n    lines.append(body_str)\n    lines.append(htb_str)\n    lines.append(return_str)\n    return ''.join(lines)\n"))
+T('f_c12_chain_positional_format', ['C12'],
+  (S, "    htb_str = '%s__traceback_hide__ = True\\n' % (inner_indent,)\n    return_str = '%sreturn funcs[%s](%s)\\n' % (inner_indent, level, inner_args)\n",
+      "    htb_str = '{0}__traceback_hide__ = True\\n'.format(inner_indent)\n    return_str = '{}return funcs[{}]({})\\n'.format(inner_indent, level, inner_args)\n"))
+B('f_c12_chain_lines_appended_global', ['C12'], 'R12.a',
+  (S, _RET, "    lines = [def_str]\n    lines.append(body_str)\n    lines.append('%sglobal last_level\\n%slast_level = %s\\n' % (inner_indent, inner_indent, level))\n"
+            "    lines.append(htb_str)\n    lines.append(return_str)\n    return ''.join(lines)\n"))
+B('f_c12_chain_format_heap_store', ['C12'], 'R12.a',
+  (S, "    htb_str = '%s__traceback_hide__ = True\\n' % (inner_indent,)\n",
+      "    htb_str = '{0}funcs[{1}].calls = 1\\n{0}__traceback_hide__ = True\\n'.format(inner_indent, level)\n"))
+_FMT = ("    code_str = _REQ_INNER_TMPL.format(all_args=all_args_str,\n"
+        "                                      endpoint_args=ep_args_str,\n"
+        "                                      render_args=rn_args_str)\n"
+        "    env = {'endpoint': endpoint, 'render': render, 'BaseResponse': BaseResponse}\n")
+T('f_c12_core_format_fields_dict', ['C12'],
+  (C, _FMT, "    fields = {'all_args': all_args_str, 'endpoint_args': ep_args_str, 'render_args': rn_args_str}\n"
+            "    code_str = _REQ_INNER_TMPL.format(**fields)\n"
+            "    env = dict(endpoint=endpoint, render=render, BaseResponse=BaseResponse)\n"))
+B('f_c12_core_reads_unbound_shared_name', ['C12'], 'R12.a',
+  (C, "    context = endpoint({endpoint_args})", "    context = endpoint({endpoint_args})\n    last_context = _shared"))
+# the recursion of build_chain_str turned into a loop (no template per level any more: followed by running the builder on samples)
+_BCS_OLD_HEAD = "    params_sofar.update(params[0])\n"
+_LOOP_BODY = ("    defs, tails = [], []\n"
+              "    for depth in range(len(funcs)):\n"
+              "        cur = level + depth\n"
+              "        params_sofar.update(params[depth])\n"
+              "        names = sorted(set(get_fb(funcs[depth]).get_arg_names()))\n"
+              "        kwargs = ', '.join(['%s=%s' % (n, n) for n in names if n in params_sofar])\n"
+              "        defs.append('%sdef %s(%s):\\n' % (_INDENT * cur, inner_name, ', '.join(params[depth])))\n"
+              "        tails.append('%s__traceback_hide__ = True\\n%sreturn funcs[%s](%s)\\n' % (_INDENT * (cur + 1), _INDENT * (cur + 1), cur, kwargs))\n"
+              "    return ''.join(defs + tails[::-1])\n\n\n"
+              "def _unused_recursive_form(funcs, params, inner_name, params_sofar, level):\n")
+T('f_c12_chain_builder_loop', ['C12'], (S, _BCS_OLD_HEAD, _LOOP_BODY + _BCS_OLD_HEAD))
+B('f_c12_chain_builder_loop_global', ['C12'], 'R12.a',
+  (S, _BCS_OLD_HEAD, _LOOP_BODY.replace("'%s__traceback_hide__ = True\\n%sreturn", "'%sglobal calls\\n%scalls = 1\\n%sreturn")
+                               .replace("% (_INDENT * (cur + 1), _INDENT * (cur + 1), cur, kwargs)", "% (_INDENT * (cur + 1), _INDENT * (cur + 1), _INDENT * (cur + 1), cur, kwargs)")
+      + _BCS_OLD_HEAD))
